@@ -321,6 +321,9 @@ func runC14(c *vk.Ctx) {
 	c.Assume("faults are injected at the Directory interface (the os-level variants of a failing Sync/Close are equivalent for bluge to 'Persist failed after the full write', and C13 covers the directory's own behaviour)",
 		"progress: a child whose workload does not finish within 45 s is reported with its goroutine dump (wall clock; the workload needs well under a second)")
 	nHist := c.Pick(3, 10)
+	if vk.DebugOnly("c14-reopen") {
+		nHist = 0
+	}
 	perHist := c.Pick(60, 200)
 	for h := 0; h < nHist; h++ {
 		seed := vk.SubSeed(c.Seed, fmt.Sprintf("c14-%d", h))
